@@ -337,10 +337,14 @@ def mquads(rows):
 class Matcher:
     """Keeps one injective renaming impl-name -> other-name of allocated blank nodes over a whole history."""
 
-    def __init__(self, fixed):
+    def __init__(self, fixed, identity=()):
         self.fixed = set(fixed)
-        self.map = {}
+        self.map = {n: n for n in identity if n and BN_RE.match(n)}
         self.budget_hit = False
+
+    def prune(self, live):
+        """Forget names that are no longer in the dataset (the Spec asks for freshness w.r.t. the dataset only)."""
+        self.map = {a: b for a, b in self.map.items() if a in live}
 
     def ren(self, t):
         return t is not None and t not in self.fixed and BN_RE.match(t) is not None
@@ -522,7 +526,7 @@ def gen_template(rng, vs, insert, kw_a=False, allow_var=True):
 
 def gen_op(rng, kw_a=False):
     k = rng.random()
-    nq = lambda: rng.choice([1, 1, 2, 2, 3])
+    nq = lambda: rng.choice([0, 1, 1, 1, 2, 2, 2, 3])
     if k < 0.20:
         return {"form": "ID", "del": [], "ins": [gen_template(rng, [], True, kw_a, False) for _ in range(nq())], "where": [[]]}
     if k < 0.30:
@@ -568,7 +572,7 @@ def gen_request(rng, kw_a=False):
                 q[0] = ["V", 9]
         elif k < 0.5 and op["ins"]:
             rng.choice(op["ins"])[3] = ["X"]
-        elif k < 0.6 and op["form"] in ("ID", "DD"):
+        elif k < 0.6 and op["form"] in ("ID", "DD") and (op["ins"] or op["del"]):
             (op["ins"] or op["del"])[0][2] = ["V", 1]
         if op["form"] == "DWS":
             op["where"] = short_where(op["del"])
@@ -579,8 +583,9 @@ def gen_request(rng, kw_a=False):
         kind = rng.choice(["trail", "second", "unclosed", "keyword"])
     elif k < 0.23 and op["form"] in ("ID", "DD"):
         kind = "alias"
-    elif k < 0.28 and op["form"] in ("ID", "DD"):
-        (op["ins"] or op["del"])[0][rng.choice([0, 2])] = ["V", 1]      # a variable in a DATA block
+    elif k < 0.28 and op["form"] in ("ID", "DD") and (op["ins"] or op["del"]):
+        pos = rng.choice([0, 2, 3])
+        (op["ins"] or op["del"])[0][pos] = ["V", 1]                    # a variable in a DATA block (also as graph name)
     elif k < 0.34 and op["del"]:
         rng.choice(op["del"])[rng.choice([0, 2])] = ["B", 1]           # a blank node in DELETE
     if op["form"] == "DWS":
@@ -661,8 +666,10 @@ def evaluate(ctx, binpath, cases, stream, report=True):
             st["spec_violations"] += 1
             verdicts.append(v)
             continue
-        fixed = {x for q in drv["init"] for x in q if x} | set(drv["graphs"]) | set(drv["dict"])
-        mm, ms = Matcher(fixed), Matcher(fixed)
+        in_data = {x for q in drv["init"] for x in q if x} | set(drv["graphs"])
+        # model: allocated names avoid every dictionary entry (exact names for everything known initially);
+        # Spec: allocated names avoid the terms of the dataset (identity on the initial dataset, forgotten once deleted)
+        mm, ms = Matcher(in_data | set(drv["dict"])), Matcher((), in_data)
         steps = im["steps"]
         verdict = None
         in_known = False
@@ -717,6 +724,7 @@ def evaluate(ctx, binpath, cases, stream, report=True):
                                "impl_quads": cur["q"], "spec_quads": sq, "impl_graphs": ig, "spec_graphs": scat,
                                "before_quads": prev["q"], "before_graphs": prev["g"]}
                     break
+                ms.prune({x for q in iq for x in q if x} | set(ig))
             else:
                 st["known_class_steps_skipped"] += 1
             # --- correspondence with the model
